@@ -1,4 +1,5 @@
 import VelaVerif.Lemmas.Rewrites
+import VelaVerif.Props.C01
 import Mathlib.Algebra.Order.Field.Basic
 import Mathlib.Tactic.Linarith
 import Mathlib.Tactic.Ring
@@ -12,7 +13,7 @@ parameters in the rewrite's precondition. Where the precondition the code checks
 for the repaired precondition and the negation is proved on a concrete witness (`…_witness`).
 -/
 namespace VelaVerif.Props.C01Rewrites
-open VelaVerif.Requant VelaVerif.TfliteRef VelaVerif.RewriteSem VelaVerif.Rewrites VelaVerif.Lemmas.Rewrites
+open VelaVerif.Requant VelaVerif.TfliteRef VelaVerif.RewriteSem VelaVerif.Rewrites VelaVerif.Lemmas.Rewrites VelaVerif.Lemmas.Sem
 
 /-! ## 6. Activation ranges of a pass are intersected -/
 
@@ -251,5 +252,316 @@ example : mulMaxPlan 127 (-128) 998244352 = some (.lrelu 255 false) ∧ mulMaxPl
     mulMaxPlan (-1) 0 1065353216 = some .abs := by decide
 example : (List.range 30).map (fun (i : Nat) => mulMaxOrig ((i : Int) - 15) 2 127 (-128) 1077952577 (-8) (-128) 127) =
     (List.range 30).map (fun (i : Nat) => lreluLutEntry ((i : Int) - 15) 2 255 1077952577 (-8) (-128) 127) := by decide
+
+/-! ## 2. PAD folded into hardware padding -/
+
+/-- **A convolution over a PAD equals the convolution with explicit padding over the unpadded tensor.** The PAD fills with
+    `pv`, the zero point of its (equal) input/output quantisation, so `pv + inOff = 0`; the reference convolution skips
+    positions outside the tensor. Holds for every output position, every kernel, stride, dilation and every pad size —
+    the restrictions `replace_pad_by_hw_pad` checks (pad ≤ kernel/2, `_leading_pad_ok`) are hardware restrictions, not
+    needed for this equality. -/
+theorem pad_conv_eq (H W C t l b r : Nat) (ifm : Nat → Nat → Nat → Int) (pv inOff : Int) (hpv : pv + inOff = 0)
+    (kh kw : Nat) (wgt : Nat → Nat → Nat → Int) (sy sx dy dx oy ox : Nat) :
+    convAcc (H + t + b) (W + l + r) C (padded H W ifm t l pv) kh kw wgt sy sx dy dx 0 0 inOff oy ox =
+    convAcc H W C ifm kh kw wgt sy sx dy dx t l inOff oy ox := by
+  unfold convAcc
+  apply sumRange_congr
+  intro ky _
+  apply sumRange_congr
+  intro kx _
+  simp only []
+  by_cases hin : t ≤ oy * sy + ky * dy ∧ oy * sy + ky * dy - t < H ∧ l ≤ ox * sx + kx * dx ∧ ox * sx + kx * dx - l < W
+  · have c1 : 0 ≤ ((oy * sy + ky * dy : Nat) : Int) - ((0 : Nat) : Int) ∧ ((oy * sy + ky * dy : Nat) : Int) - ((0 : Nat) : Int) < ((H + t + b : Nat) : Int) ∧
+        0 ≤ ((ox * sx + kx * dx : Nat) : Int) - ((0 : Nat) : Int) ∧ ((ox * sx + kx * dx : Nat) : Int) - ((0 : Nat) : Int) < ((W + l + r : Nat) : Int) := by
+      omega
+    have c2 : 0 ≤ ((oy * sy + ky * dy : Nat) : Int) - (t : Int) ∧ ((oy * sy + ky * dy : Nat) : Int) - (t : Int) < (H : Int) ∧
+        0 ≤ ((ox * sx + kx * dx : Nat) : Int) - (l : Int) ∧ ((ox * sx + kx * dx : Nat) : Int) - (l : Int) < (W : Int) := by
+      omega
+    rw [if_pos c1, if_pos c2]
+    apply sumRange_congr
+    intro ic _
+    have e1 : (((oy * sy + ky * dy : Nat) : Int) - ((0 : Nat) : Int)).toNat = oy * sy + ky * dy := by omega
+    have e2 : (((ox * sx + kx * dx : Nat) : Int) - ((0 : Nat) : Int)).toNat = ox * sx + kx * dx := by omega
+    have e3 : (((oy * sy + ky * dy : Nat) : Int) - (t : Int)).toNat = oy * sy + ky * dy - t := by omega
+    have e4 : (((ox * sx + kx * dx : Nat) : Int) - (l : Int)).toNat = ox * sx + kx * dx - l := by omega
+    rw [e1, e2, e3, e4]
+    simp only [padded, hin, and_self, if_true]
+  · have c2 : ¬ (0 ≤ ((oy * sy + ky * dy : Nat) : Int) - (t : Int) ∧ ((oy * sy + ky * dy : Nat) : Int) - (t : Int) < (H : Int) ∧
+        0 ≤ ((ox * sx + kx * dx : Nat) : Int) - (l : Int) ∧ ((ox * sx + kx * dx : Nat) : Int) - (l : Int) < (W : Int)) := by
+      intro c; apply hin; omega
+    rw [if_neg c2]
+    split
+    · rename_i c1
+      have e1 : (((oy * sy + ky * dy : Nat) : Int) - ((0 : Nat) : Int)).toNat = oy * sy + ky * dy := by omega
+      have e2 : (((ox * sx + kx * dx : Nat) : Int) - ((0 : Nat) : Int)).toNat = ox * sx + kx * dx := by omega
+      rw [e1, e2]
+      have : ∀ ic, (padded H W ifm t l pv (oy * sy + ky * dy) (ox * sx + kx * dx) ic + inOff) * wgt ky kx ic = 0 := by
+        intro ic
+        simp only [padded, hin, if_false, hpv, Int.zero_mul]
+      rw [sumRange_congr C _ (fun _ => 0) (fun ic _ => this ic)]
+      clear this c1 c2 hin e1 e2
+      induction C with
+      | zero => rfl
+      | succ k ih => simp only [sumRange, ih]; rfl
+    · rfl
+
+/-- the same with the executor's convolution on the unpadded tensor (hardware padding `(t, l)`, IFM zero point `zp = pv`):
+    what the NPU computes after the rewrite is the reference VALID convolution over the PAD's output -/
+theorem pad_conv_npu_eq (H W C t l b r : Nat) (ifm : Nat → Nat → Nat → Int) (zp : Int)
+    (kh kw : Nat) (wgt : Nat → Nat → Nat → Int) (sy sx dy dx oy ox : Nat) :
+    NpuSem.convAcc H W C ifm kh kw wgt sy sx dy dx t l zp oy ox =
+    TfliteRef.convAcc (H + t + b) (W + l + r) C (padded H W ifm t l zp) kh kw wgt sy sx dy dx 0 0 (-zp) oy ox := by
+  rw [pad_conv_eq H W C t l b r ifm zp (-zp) (by omega)]
+  have h := VelaVerif.Props.C01.conv_stripe_eq H W C H 0 0 t t l kh kw sy sx dy dx ifm wgt zp oy ox (by omega)
+    (by intro ky _; simp only [Nat.zero_add]; constructor <;> intro c <;> omega)
+  have e : (fun y x c => ifm (0 + y) x c) = ifm := by funext y x c; rw [Nat.zero_add]
+  rw [e, Nat.zero_add] at h
+  exact h
+
+/-- **`convert_depthwise_to_conv`**: with IFM depth 1 every output channel of a depthwise convolution with depth multiplier
+    `M` reads input channel `oc / M = 0`; its accumulator is the convolution accumulator over the single input channel
+    with the same kernel (the weights `[kh, kw, 1, M]` transposed to `[kh, kw, M, 1]`… one input channel per filter). -/
+theorem dw_depth1_eq_conv (H W : Nat) (ifm : Nat → Nat → Int) (kh kw : Nat) (wgt : Nat → Nat → Int)
+    (sy sx dy dx pt pl : Nat) (inOff : Int) (oy ox : Nat) :
+    TfliteRef.dwAcc H W ifm kh kw wgt sy sx dy dx pt pl inOff oy ox =
+    TfliteRef.convAcc H W 1 (fun y x _ => ifm y x) kh kw (fun ky kx _ => wgt ky kx) sy sx dy dx pt pl inOff oy ox := by
+  unfold TfliteRef.dwAcc TfliteRef.convAcc
+  apply sumRange_congr; intro ky _
+  apply sumRange_congr; intro kx _
+  simp only [sumRange, Int.zero_add]
+
+
+/-- depthwise version -/
+theorem pad_dw_eq (H W t l b r : Nat) (ifm : Nat → Nat → Int) (pv inOff : Int) (hpv : pv + inOff = 0)
+    (kh kw : Nat) (wgt : Nat → Nat → Int) (sy sx dy dx oy ox : Nat) :
+    TfliteRef.dwAcc (H + t + b) (W + l + r) (padded2 H W ifm t l pv) kh kw wgt sy sx dy dx 0 0 inOff oy ox =
+    TfliteRef.dwAcc H W ifm kh kw wgt sy sx dy dx t l inOff oy ox := by
+  have h := pad_conv_eq H W 1 t l b r (fun y x _ => ifm y x) pv inOff hpv kh kw (fun ky kx _ => wgt ky kx) sy sx dy dx oy ox
+  rw [dw_depth1_eq_conv, dw_depth1_eq_conv]
+  have e : padded H W (fun y x _ => ifm y x) t l pv = fun y x _ => padded2 H W ifm t l pv y x := by
+    funext y x c; simp only [padded, padded2]
+  rw [e] at h
+  exact h
+
+/-- **Average pool over a PAD → depthwise convolution with all-ones weights**: for a window inside the padded tensor
+    (VALID pooling), the reference pooling sum is the depthwise accumulator over the unpadded tensor with hardware
+    padding and input offset `-zp`, plus `zp * kh * kw` — the bias `replace_pad_by_hw_pad` adds for signed types (for
+    uint8 the zero point is added back by the OFM zero point instead) — and the count is always `kh * kw` (the weight
+    scale `1 / (kw * kh)`). The division itself is the executor's requantisation (translation validation). -/
+theorem pad_avgpool_sum_eq (H W t l b r : Nat) (ifm : Nat → Nat → Int) (zp : Int) (fh fw sh sw oy ox : Nat)
+    (hy : oy * sh + fh ≤ H + t + b) (hx : ox * sw + fw ≤ W + l + r) :
+    poolSumCount (H + t + b) (W + l + r) (padded2 H W ifm t l zp) fh fw sh sw 0 0 oy ox =
+      (dwAcc H W ifm fh fw (fun _ _ => 1) sh sw 1 1 t l (-zp) oy ox + zp * fh * fw, fh * fw) := by
+  rw [poolSumCount_eq]
+  congr 1
+  · unfold dwAcc
+    simp only []
+    have e : ∀ ky, ky < fh → (sumRange fw fun kx =>
+          if 0 ≤ ((oy * sh + ky : Nat) : Int) - ((0 : Nat) : Int) ∧ ((oy * sh + ky : Nat) : Int) - ((0 : Nat) : Int) < ((H + t + b : Nat) : Int) ∧
+             0 ≤ ((ox * sw + kx : Nat) : Int) - ((0 : Nat) : Int) ∧ ((ox * sw + kx : Nat) : Int) - ((0 : Nat) : Int) < ((W + l + r : Nat) : Int)
+          then padded2 H W ifm t l zp (((oy * sh + ky : Nat) : Int) - ((0 : Nat) : Int)).toNat (((ox * sw + kx : Nat) : Int) - ((0 : Nat) : Int)).toNat else 0) =
+        (sumRange fw fun kx =>
+          (if 0 ≤ ((oy * sh + ky * 1 : Nat) : Int) - (t : Int) ∧ ((oy * sh + ky * 1 : Nat) : Int) - (t : Int) < (H : Int) ∧
+              0 ≤ ((ox * sw + kx * 1 : Nat) : Int) - (l : Int) ∧ ((ox * sw + kx * 1 : Nat) : Int) - (l : Int) < (W : Int)
+           then (ifm (((oy * sh + ky * 1 : Nat) : Int) - (t : Int)).toNat (((ox * sw + kx * 1 : Nat) : Int) - (l : Int)).toNat + -zp) * 1 else 0)) + zp * fw := by
+      intro ky hky
+      rw [← sumRange_const fw zp, ← sumRange_add]
+      apply sumRange_congr
+      intro kx hkx
+      have c1 : 0 ≤ ((oy * sh + ky : Nat) : Int) - ((0 : Nat) : Int) ∧ ((oy * sh + ky : Nat) : Int) - ((0 : Nat) : Int) < ((H + t + b : Nat) : Int) ∧
+             0 ≤ ((ox * sw + kx : Nat) : Int) - ((0 : Nat) : Int) ∧ ((ox * sw + kx : Nat) : Int) - ((0 : Nat) : Int) < ((W + l + r : Nat) : Int) := by omega
+      rw [if_pos c1]
+      have e1 : (((oy * sh + ky : Nat) : Int) - ((0 : Nat) : Int)).toNat = oy * sh + ky := by omega
+      have e2 : (((ox * sw + kx : Nat) : Int) - ((0 : Nat) : Int)).toNat = ox * sw + kx := by omega
+      rw [e1, e2]
+      simp only [Nat.mul_one]
+      unfold padded2
+      by_cases hin : t ≤ oy * sh + ky ∧ oy * sh + ky - t < H ∧ l ≤ ox * sw + kx ∧ ox * sw + kx - l < W
+      · have c2 : 0 ≤ ((oy * sh + ky : Nat) : Int) - (t : Int) ∧ ((oy * sh + ky : Nat) : Int) - (t : Int) < (H : Int) ∧
+            0 ≤ ((ox * sw + kx : Nat) : Int) - (l : Int) ∧ ((ox * sw + kx : Nat) : Int) - (l : Int) < (W : Int) := by omega
+        rw [if_pos hin, if_pos c2]
+        have e3 : (((oy * sh + ky : Nat) : Int) - (t : Int)).toNat = oy * sh + ky - t := by omega
+        have e4 : (((ox * sw + kx : Nat) : Int) - (l : Int)).toNat = ox * sw + kx - l := by omega
+        rw [e3, e4]
+        omega
+      · have c2 : ¬ (0 ≤ ((oy * sh + ky : Nat) : Int) - (t : Int) ∧ ((oy * sh + ky : Nat) : Int) - (t : Int) < (H : Int) ∧
+            0 ≤ ((ox * sw + kx : Nat) : Int) - (l : Int) ∧ ((ox * sw + kx : Nat) : Int) - (l : Int) < (W : Int)) := by
+          intro c; apply hin; omega
+        rw [if_neg hin, if_neg c2]
+        omega
+    rw [sumRange_congr fh _ _ e, sumRange_add, sumRange_const]
+    have : zp * ↑fw * ↑fh = zp * ↑fh * ↑fw := by
+      rw [Int.mul_assoc, Int.mul_comm (fw : Int) fh, ← Int.mul_assoc]
+    omega
+  · apply foldl_add_const
+    intro ky hky
+    apply countRange_true
+    intro kx hkx
+    simp only [decide_eq_true_eq]
+    omega
+
+
+/-- non-vacuity: 2x2 average pool, stride 1, over a 3x3 tensor padded by (1, 1, 0, 0), zero point 3 -/
+example :
+    let ifm : Nat → Nat → Int := fun y x => (y * 5 + x : Nat)
+    (List.range 3).map (fun oy => poolSumCount 4 4 (padded2 3 3 ifm 1 1 3) 2 2 1 1 0 0 oy 1) =
+    (List.range 3).map (fun oy => (TfliteRef.dwAcc 3 3 ifm 2 2 (fun _ _ => 1) 1 1 1 1 1 1 (-3) oy 1 + 3 * 2 * 2, 2 * 2)) := by decide
+example :
+    let ifm : Nat → Nat → Nat → Int := fun y x c => (y * 7 + x * 3 + c : Nat)
+    let wgt : Nat → Nat → Nat → Int := fun ky kx c => (ky : Int) - kx + c
+    (List.range 3).map (fun oy => NpuSem.convAcc 4 4 2 ifm 3 3 wgt 2 1 1 1 1 1 5 oy 2) =
+    (List.range 3).map (fun oy => TfliteRef.convAcc 6 6 2 (padded 4 4 ifm 1 1 5) 3 3 wgt 2 1 1 1 0 0 (-5) oy 2) := by decide
+
+/-- the precondition of the model: a rejected case stays, an accepted one gets the PAD values as explicit padding -/
+example : replacePadByHwPad ⟨.conv, 3, 3, 1, 1, 2, 0, 0, 0, true, true, true, false, 0⟩ = none ∧
+    (replacePadByHwPad ⟨.conv, 3, 3, 1, 1, 1, 0, 1, 1, true, true, true, false, 0⟩).map (·.explicit) = some (1, 0, 1, 1) ∧
+    replacePadByHwPad ⟨.avgpool, 3, 3, 1, 1, 1, 1, 1, 1, true, true, true, false, 7⟩ = some ⟨(1, 1, 1, 1), true, some .awayZero, some 63⟩ := by decide
+
+/-! ## 3. FULLY_CONNECTED as a 1x1 convolution -/
+
+/-- **FC = 1x1 convolution on the reshaped tensor**: with the batch rows laid out as the `h × w` positions of an NHWC
+    tensor (`convert_batched_fc_shape`; `h = w = 1`... for one row) and the weights `[O, I]` read as `O` 1x1 kernels over
+    `I` channels, the reference convolution accumulator at position `(y, x)` is the reference FULLY_CONNECTED
+    accumulator of batch row `y * w + x`. -/
+theorem fc_as_conv_eq (h w I : Nat) (x wt : Nat → Int) (inOff wOff : Int) (y xx o : Nat) (hx : xx < w) (hy : y < h) :
+    TfliteRef.convAcc h w I (fun yy xc c => x ((yy * w + xc) * I + c)) 1 1 (fun _ _ ic => wt (o * I + ic) + wOff) 1 1 1 1 0 0 inOff y xx =
+    fcAcc I x wt inOff wOff (y * w + xx) o := by
+  unfold TfliteRef.convAcc fcAcc
+  simp only [sumRange, Nat.mul_one, Nat.zero_mul, Nat.add_zero, Int.zero_add]
+  have c : 0 ≤ ((y : Nat) : Int) - ((0 : Nat) : Int) ∧ ((y : Nat) : Int) - ((0 : Nat) : Int) < (h : Int) ∧
+      0 ≤ ((xx : Nat) : Int) - ((0 : Nat) : Int) ∧ ((xx : Nat) : Int) - ((0 : Nat) : Int) < (w : Int) := by omega
+  rw [if_pos c]
+  have e1 : (((y : Nat) : Int) - ((0 : Nat) : Int)).toNat = y := by omega
+  have e2 : (((xx : Nat) : Int) - ((0 : Nat) : Int)).toNat = xx := by omega
+  rw [e1, e2]
+
+/-- the position ↔ batch-row map is a bijection: every row `b < h * w` is exactly one position `(b / w, b % w)` -/
+theorem batch_position (h w b : Nat) (hb : b < h * w) (hw : 0 < w) :
+    b / w < h ∧ b % w < w ∧ (b / w) * w + b % w = b ∧
+    ∀ y x, y < h → x < w → y * w + x = b → y = b / w ∧ x = b % w := by
+  refine ⟨?_, Nat.mod_lt b hw, ?_, ?_⟩
+  · exact (Nat.div_lt_iff_lt_mul hw).mpr hb
+  · rw [Nat.mul_comm]; exact Nat.div_add_mod b w
+  · intro y x _ hx e
+    subst e
+    constructor
+    · rw [Nat.add_comm, Nat.add_mul_div_right _ _ hw, Nat.div_eq_of_lt hx, Nat.zero_add]
+    · rw [Nat.add_comm, Nat.add_mul_mod_self_right, Nat.mod_eq_of_lt hx]
+
+/-- the layouts of `batching_split` have exactly `n` positions (4 → 2x2, 8 → 2x4, 16 → 4x4, otherwise 1 x n) -/
+theorem batchingSplit_prod (n : Nat) : (batchingSplit n).1 * (batchingSplit n).2 = n := by
+  unfold batchingSplit
+  split
+  · omega
+  · split
+    · omega
+    · split
+      · omega
+      · simp
+
+example : rewriteFc [4, 8] 8 (1, 1, 4, 10) = some ((1, 2, 2, 8), (1, 2, 2, 10), true) := by decide
+example : rewriteFc [1, 2, 3, 8] 48 (1, 1, 1, 10) = some ((1, 1, 1, 48), (1, 1, 1, 10), false) := by decide
+example : rewriteFc [4, 7] 8 (1, 1, 4, 10) = none := by decide
+example :
+    let x : Nat → Int := fun i => (i : Int) * 3 - 20
+    let wt : Nat → Int := fun i => 7 - (i : Int)
+    (List.range 4).map (fun b => TfliteRef.convAcc 2 2 3 (fun yy xc c => x ((yy * 2 + xc) * 3 + c)) 1 1 (fun _ _ ic => wt (1 * 3 + ic) + 2) 1 1 1 1 0 0 5 (b / 2) (b % 2)) =
+    (List.range 4).map (fun b => fcAcc 3 x wt 5 2 b 1) := by decide
+
+/-! ## 4. Concatenation as write offsets, split as read offsets -/
+
+/-- **Concatenation = copies at write offsets.** With the write offsets `rewrite_concat_ops` computes (prefix sums of the axis
+    sizes), after all copies every coordinate `a` of the output axis holds exactly the element the reference
+    concatenation puts there (`locate`: input `k`, coordinate `a - offset k`), whatever it held before. -/
+theorem concat_writes_eq_ref (sizes : List Nat) (a : Nat) (h : a < (concatOffsets sizes).2) (before : Option (Nat × Nat)) :
+    writtenFrom 0 (sizes.zip (concatOffsets sizes).1) a before = locate sizes a := by
+  rw [concatOffsets_eq] at h ⊢
+  have := written_eq_locate sizes 0 0 a before (by omega) (by simpa using h)
+  rw [this]
+  cases locate sizes (a - 0) <;> simp
+
+/-- **…and every output coordinate is written exactly once** (the copies are disjoint and tile the output axis); coordinates
+    beyond the end offset are written by nobody -/
+theorem concat_writes_once (sizes : List Nat) (a : Nat) :
+    writers (sizes.zip (concatOffsets sizes).1) a = if a < (concatOffsets sizes).2 then 1 else 0 := by
+  rw [concatOffsets_eq]
+  simp only []
+  split
+  · rename_i h
+    exact writers_once sizes 0 a (by omega) (by simpa using h)
+  · rename_i h
+    have : ∀ (ds : List Nat) (base : Nat), base + sumL ds ≤ a → writers (ds.zip (offsFrom base ds)) a = 0 := by
+      intro ds
+      induction ds with
+      | nil => intro base _; simp [offsFrom, writers]
+      | cons d ds ih =>
+        intro base hb
+        rw [sumL_cons] at hb
+        simp only [offsFrom, List.zip_cons_cons, writers]
+        have c : ¬ (base ≤ a ∧ a < base + d) := by omega
+        rw [if_neg c, ih (base + d) (by omega)]
+    exact this sizes 0 (by omega)
+
+/-- the end offset the code asserts to be the OFM size is the sum of the input sizes -/
+theorem concat_end_offset (sizes : List Nat) : (concatOffsets sizes).2 = sumL sizes := by
+  rw [concatOffsets_eq]
+
+/-- **Split = read offsets**: output `idx` of a split into parts `sizes` reads the input at offset
+    `splitOffset sizes idx`, which is where the reference concatenation of the parts puts part `idx` — so coordinate `j`
+    of output `idx` is input coordinate `splitOffset sizes idx + j`, the element the reference SPLIT returns. -/
+theorem split_offset_locates (sizes : List Nat) (idx j : Nat) (hidx : idx < sizes.length) (hj : j < sizes.getD idx 0) :
+    locate sizes (splitOffset sizes idx + j) = some (idx, j) := by
+  induction sizes generalizing idx with
+  | nil => simp at hidx
+  | cons d ds ih =>
+    cases idx with
+    | zero =>
+      simp only [splitOffset, List.take, List.foldl, locate]
+      simp only [List.getD_cons_zero] at hj
+      rw [if_pos (by omega)]
+      simp
+    | succ k =>
+      have hk : k < ds.length := by simpa using hidx
+      have hj' : j < ds.getD k 0 := by simpa using hj
+      have e : splitOffset (d :: ds) (k + 1) = d + splitOffset ds k := by
+        unfold splitOffset
+        simp only [List.take_succ_cons, List.foldl]
+        have h : ∀ (l : List Nat) (a : Nat), l.foldl (· + ·) a = a + l.foldl (· + ·) 0 := by
+          intro l
+          induction l with
+          | nil => intro a; simp
+          | cons x xs ihx => intro a; simp only [List.foldl]; rw [ihx (a + x), ihx (0 + x)]; omega
+        rw [h _ (0 + d)]; omega
+      rw [e]
+      simp only [locate]
+      rw [if_neg (by omega)]
+      have e2 : d + splitOffset ds k + j - d = splitOffset ds k + j := by omega
+      rw [e2, ih k hk hj']
+      simp
+
+/-- equal parts (the reference SPLIT: `k * (d / num)`) -/
+theorem split_offset_equal_parts (num part idx : Nat) (h : idx ≤ num) :
+    splitOffset (List.replicate num part) idx = idx * part := by
+  unfold splitOffset
+  rw [List.take_replicate, Nat.min_eq_left h]
+  induction idx with
+  | zero => simp
+  | succ k ih =>
+    have ih' := ih (by omega)
+    rw [List.replicate_succ', List.foldl_append, ih']
+    simp only [List.foldl]
+    rw [Nat.succ_mul]
+
+example : concatOffsets [3, 5, 2] = ([0, 3, 8], 10) := by decide
+example : (List.range 10).map (fun a => writtenFrom 0 ([3, 5, 2].zip (concatOffsets [3, 5, 2]).1) a none) = (List.range 10).map (locate [3, 5, 2]) := by decide
+example : locate [3, 5, 2] 8 = some (2, 0) ∧ splitOffset [3, 5, 2] 2 = 8 := by decide
+example : axis4D 3 2 = some 3 ∧ axis4D 4 (-1) = some 3 ∧ axis4D 2 0 = some 2 := by decide
+
+/-! ## 5. Depthwise convolution with one input channel -/
+
+-- (theorem `dw_depth1_eq_conv` is stated in section 2, where it is first used)
+
+example : convertDepthwiseToConv 4 1 4 = .toConv ∧ convertDepthwiseToConv 1 8 8 = .keep ∧ convertDepthwiseToConv 2 3 6 = .unsupported := by decide
+example : ∀ oc, oc < 4 → oc / 4 = 0 := by omega
 
 end VelaVerif.Props.C01Rewrites
